@@ -132,6 +132,9 @@ func (k *hkind) err() error {
 		}
 		return context.DeadlineExceeded
 	case "eof":
+		if k.wrap {
+			return fmt.Errorf("reading the next record: %w", io.EOF)
+		}
 		return io.EOF
 	}
 	panic("kind")
@@ -182,6 +185,8 @@ func (k *hkind) tags() []string {
 		switch {
 		case k.msg == "":
 			t = append(t, "msg=empty")
+		case len(k.msg) >= 65536:
+			t = append(t, "msg=64KiB")
 		case len(k.msg) >= 4096:
 			t = append(t, "msg=4KiB")
 		case strings.ContainsAny(k.msg, "é✓世"):
@@ -194,6 +199,14 @@ func (k *hkind) tags() []string {
 }
 
 var stMessages = []string{"", "resource not found", "héllo ✓ 世界  ", strings.Repeat("long message ✓ ", 300)[:4096]}
+
+// at the size limits: a 64 KiB message and a 48 KiB detail value
+var stHugeMessage = strings.Repeat("0123456789abcdef", 4096)
+
+func stHugeDetail() []*anypb.Any {
+	a, _ := anypb.New(wrapperspb.Bytes([]byte(strings.Repeat("\x00\xff\x7f", 16384))))
+	return []*anypb.Any{a}
+}
 
 func stDetails(n int) []*anypb.Any {
 	var out []*anypb.Any
@@ -237,7 +250,11 @@ func stGrid() []*hkind {
 	for _, w := range []bool{false, true} {
 		ks = append(ks, &hkind{kind: "canceled", wrap: w}, &hkind{kind: "deadline", wrap: w})
 	}
-	ks = append(ks, &hkind{kind: "eof"})
+	ks = append(ks, &hkind{kind: "eof"}, &hkind{kind: "eof", wrap: true})
+	for _, kind := range []string{"status", "wrapped"} {
+		ks = append(ks, &hkind{kind: kind, code: 8, msg: stHugeMessage, det: stHugeDetail()}, &hkind{kind: kind, code: 13, msg: stHugeMessage})
+	}
+	ks = append(ks, &hkind{kind: "okstatus", msg: stHugeMessage, det: stHugeDetail()}, &hkind{kind: "plain", msg: stHugeMessage})
 	return ks
 }
 
@@ -253,6 +270,8 @@ func stKindsSmall() []*hkind {
 		{kind: "canceled"},
 		{kind: "deadline", wrap: true},
 		{kind: "eof"},
+		{kind: "eof", wrap: true},
+		{kind: "status", code: 8, msg: stHugeMessage, det: stHugeDetail()},
 	}
 }
 
